@@ -22,5 +22,20 @@ SPEC = {
         "NOT modelled: SerializableJSON/DeserializableJSON and validator callbacks, ArrayRules.MustOccur, inlined interfaces/pointers, "
         "object codes on non-byte slices, non-UTF-8 strings, JSON numbers with fraction/exponent, times beyond 2^63 ns",
     ],
+    "manifest": {
+        "text": "JSON/map form of serix. Theorems over every schema (structs with named/optional/omitempty/embedded/inlined fields and object codes, "
+                "pointers, interfaces, slices, arrays, Go maps, byte arrays, typed byte arrays, big.Int, time, all integer/float widths), every value, "
+                "validation on/off and any float text codec: mapDecode(mapEncode v) = v for every expressible type and value (C01_json_roundtrip, "
+                "C01_json_api_roundtrip), a Go map round-trips in every iteration order (C01_json_map_any_iteration_order), and decoding does not depend "
+                "on the order of object members at any depth (C01_json_key_order_irrelevant, JPerm/VEquiv). The hand-written model is re-validated on "
+                "every run against random reflect-built Go types registered in a fresh serix.API: JSONEncode vs mapEncode, JSONDecode vs mapDecode on the "
+                "produced document, on the document with every object's members shuffled and on documents with a member removed/added; "
+                "JsonExpressible/ValExpressible verdicts are compared with an independent Go statement; the Go-only oracle JSONDecode(JSONEncode(v)) = v "
+                "turns a broken tie into a failing input.",
+        "note": "Trusted: Lean kernel; model Hive/Model/SerixJson.lean (tie = differential execution); strconv float text (FloatCodec parameter, checked "
+                "by the Go oracle); encoding/json carrying the Json tree. Known findings: typed byte array held by value and *[n]byte without type "
+                "settings are encoded but cannot be decoded. Not modelled: self-serialising types, validators, MustOccur, inlined interfaces, non-UTF-8 strings.",
+        "technique": "Lean 4 mutual structural induction over the schema type + differential correspondence on random schemas",
+    },
     "assumptions": ["documents handed to the decoder are map[string]any trees (no duplicate member names)"],
 }
